@@ -30,7 +30,7 @@ THEOREMS = ["Kdf.Props.C15." + t for t in (
     "addrxlatGetPage_balanced", "addrxlatPage_roundtrip", "session_balanced",
     "fcacheGetFb_balanced", "fcacheGetFb_roundtrip", "xenMapScan_balanced", "getCacheBuf_balanced", "cleanupCache_balanced",
     "ctxAddCb_balanced", "ctxDelCb_balanced", "axSession_balanced", "axSession_delcb_last", "xenMapScan_balanced_fresh",
-    "verifyMagic_balanced", "magicLoop_balanced")] + [
+    "verifyMagic_balanced", "magicLoop_balanced", "derivedRevalidate_balanced", "derivedRevalidate_short")] + [
     # libaddrxlat's read cache under a RE-ENTRANT get-page callback (model Kdf.Model.RCache, shared with C09)
     "Kdf.Props.C09.read_gives_back", "Kdf.Props.C09.filling_slot_never_chosen", "Kdf.Props.C09.filling_slot_untouched",
     "Kdf.Props.C09.filling_marks_restored"]
@@ -509,11 +509,17 @@ def directed_scenarios(R, dumps):
     return out
 
 
+X64_PRSTATUS_REGS = ["r15", "r14", "r13", "r12", "rbp", "rbx", "r11", "r10", "r9", "r8", "rax", "rcx", "rdx", "rsi", "rdi", "orig_rax", "rip",
+                     "cs", "rflags", "rsp", "ss", "fs_base", "gs_base", "ds", "es", "fs", "gs"]       # struct elf_prstatus: pr_reg at 112
+
+
 def derived_scenarios(R, n):
     """attributes derived from a raw note blob (cpu.N.reg.*, cpu.N.pid over cpu.N.PRSTATUS / cpu.N.XEN_PRSTATUS) while the
     application holds that blob and edits it: notes of a wrong size are refused when the file is opened, so a register read
     that meets a blob shorter than the register's offset+length, an empty one, a cleared or replaced one needs a history.
-    Every error exit of the extraction must drop the pin it took (bpin of the `> S` line)."""
+    Every error exit of the extraction must drop the pin it took (bpin of the `> S` line).  For the ELF PRSTATUS layout the
+    generator keeps its own account of the blob the attribute holds (size, application pins) and attaches to each read the
+    triple (size | None, offset, length) that the model (lean/Kdf/Model/BlobPin.lean) is asked about."""
     rng = R.rng
     vm = b"OSRELEASE=5.4.0-verif\nPAGESIZE=4096\n"
     pe = R.path("c15-prstatus.elf")
@@ -528,47 +534,71 @@ def derived_scenarios(R, n):
         path, bk, full, regs, ncpu, haspid = kinds[k % 2] if k < 4 else rng.choice(kinds)
         S = Scn("api")
         S.add("new 0"); S.add("open 0 0 1 %s" % path)
-        objs = {}
+        objs = {}                                   # harness object slot -> blob id
+        size = {c: full for c in range(ncpu)}       # blob id -> size
+        attr = {c: c for c in range(ncpu)}          # cpu -> blob id of cpu.N.<bk> (None: cleared)
+        mypins = {}                                 # object slot -> pins the application took through it
+        nid = [ncpu]
+        def pinned(b):
+            return sum(p for o, p in mypins.items() if objs.get(o) == b)
         def blobbytes(ln):
             return bytes(rng.getrandbits(8) for _ in range(ln)).hex() or "-"
         def somelen():
             return rng.choice([0, 1, 8, 31, 32, 35, 36, 111, 112, 119, 120, full - 8, full - 1, full, full + 8, rng.randrange(full + 1)])
-        def rd(cpu):
-            key = "cpu.%d.%s" % (cpu, "pid" if haspid and rng.random() < 0.25 else "reg." + rng.choice(regs))
-            S.add("get 0 " + key, traced=True)
+        def rd(cpu, reg=None):
+            reg = reg or ("pid" if haspid and rng.random() < 0.25 else rng.choice(regs))
+            S.add("get 0 cpu.%d.%s" % (cpu, "pid" if reg == "pid" else "reg." + reg), traced=True)
+            if bk == "PRSTATUS" and (reg == "pid" or reg in X64_PRSTATUS_REGS):
+                off, ln = (32, 4) if reg == "pid" else (112 + 8 * X64_PRSTATUS_REGS.index(reg), 8)
+                S.ops[-1]["derived"] = (None if attr[cpu] is None else size[attr[cpu]], off, ln)
+        def hold(cpu, o):
+            S.add("get 0 cpu.%d.%s %d" % (cpu, bk, o))
+            if attr[cpu] is not None:               # (no object is kept when the get fails)
+                objs[o] = attr[cpu]; mypins[o] = 0
+        def bset(o, ln):
+            S.add("bset %d %s" % (o, blobbytes(ln)))
+            if not pinned(objs[o]):                 # a pinned blob refuses new data (KDUMP_ERR_BUSY)
+                size[objs[o]] = ln
         # the directed core first (k < 4): hold the blob, shorten it, read every kind of derived value, then the random walk
         if k < 4:
-            S.add("get 0 cpu.0.%s 0" % bk); objs[0] = 0
-            S.add("bset 0 %s" % blobbytes([1, 31, 113, 0][k]))
+            hold(0, 0)
+            bset(0, [1, 31, 113, 0][k])
             for r in regs[:3]:
-                S.add("get 0 cpu.0.reg." + r, traced=True)
+                rd(0, r)
             if haspid:
-                S.add("get 0 cpu.0.pid", traced=True)
-            S.add("bset 0 %s" % blobbytes(full)); S.add("get 0 cpu.0.reg." + regs[0], traced=True)
+                rd(0, "pid")
+            bset(0, full); rd(0, regs[0])
         for _ in range(rng.randint(8, 30)):
             r = rng.random(); cpu = rng.randrange(ncpu)
             free = [o for o in range(6) if o not in objs]
             if r < 0.30:
                 rd(cpu)
             elif r < 0.42 and free:
-                S.add("get 0 cpu.%d.%s %d" % (cpu, bk, free[0])); objs[free[0]] = cpu     # (no object is kept when the get fails)
+                hold(cpu, free[0])
             elif r < 0.62 and objs:
                 o = rng.choice(sorted(objs))
-                S.add("bset %d %s" % (o, blobbytes(somelen()))); rd(objs[o])
+                bset(o, somelen())
+                rd(rng.choice([c for c in attr if attr[c] == objs[o]] or [cpu]))
             elif r < 0.72:
+                ln = somelen(); b = nid[0]; nid[0] += 1
                 if free and rng.random() < 0.5:
-                    S.add("setblob 0 cpu.%d.%s %s %d" % (cpu, bk, blobbytes(somelen()), free[0])); objs[free[0]] = cpu
+                    S.add("setblob 0 cpu.%d.%s %s %d" % (cpu, bk, blobbytes(ln), free[0])); objs[free[0]] = b; mypins[free[0]] = 0
                 else:
-                    S.add("setblob 0 cpu.%d.%s %s" % (cpu, bk, blobbytes(somelen())))
+                    S.add("setblob 0 cpu.%d.%s %s" % (cpu, bk, blobbytes(ln)))
+                size[b] = ln; attr[cpu] = b
                 rd(cpu)
             elif r < 0.78:
-                S.add("clear 0 cpu.%d.%s" % (cpu, bk)); rd(cpu)
+                S.add("clear 0 cpu.%d.%s" % (cpu, bk)); attr[cpu] = None; rd(cpu)
             elif r < 0.86:
                 S.add("setnum 0 cpu.%d.reg.%s %d" % (cpu, rng.choice(regs), rng.getrandbits(rng.choice([8, 32, 64]))))
             elif r < 0.94 and objs:
-                o = rng.choice(sorted(objs)); S.add(rng.choice(["pin %d", "unpin %d"]) % o)
+                o = rng.choice(sorted(objs))
+                if rng.random() < 0.5:
+                    S.add("pin %d" % o); mypins[o] += 1
+                else:
+                    S.add("unpin %d" % o); mypins[o] = max(0, mypins[o] - 1)
             elif objs:
-                o = rng.choice(sorted(objs)); S.add("drop %d" % o); del objs[o]
+                o = rng.choice(sorted(objs)); S.add("drop %d" % o); del objs[o]; mypins.pop(o, None)
         tail = ["free 0"] + ["drop %d" % o for o in objs]
         rng.shuffle(tail)
         for t in tail:
@@ -1124,13 +1154,29 @@ def run(R):
     apis = [api_scenario(R, dumps + flat, elfs, rng.choice([15, 30, 60])) for _ in range(napi)]
     consume(run_scenarios(R, exe, apis), with_model=False)
     consume(run_scenarios(R, exe, directed_scenarios(R, dumps) + directed_xen_cb(R, dumps, xcs) + directed_formats(R, elfs + dumps[:1] + flat[:1])), with_model=False)
-    consume(run_scenarios(R, exe, derived_scenarios(R, 8 if quick else 400)), with_model=False)
+    der_res = run_scenarios(R, exe, derived_scenarios(R, 8 if quick else 400))
+    consume(der_res, with_model=False)
+    # correspondence of derived_attr_revalidate (model lean/Kdf/Model/BlobPin.lean): status and pins left by each register / pid read
+    der_in, der_impl, der_where = [], [], []
+    for (S, per, crash, err) in der_res:
+        for i, (o, st, t) in enumerate(per):
+            if o.get("derived") and st not in (None, "skip"):
+                raw, off, ln = o["derived"]
+                der_in.append("M derived %s %d %d" % ("-" if raw is None else raw, off, ln))
+                der_impl.append("D %s %s" % (st[0].split()[1], st[5]))
+                der_where.append((S, i))
     cutfiles = truncated_files(R)
     consume(run_scenarios(R, exe, directed_truncated(R, cutfiles)), with_model=False)
     consume(run_scenarios(R, exe, known_scenarios(R, dumps[0])), with_model=False)
 
     # ---- model: traces of the forced paths, ledger over every intercepted trace
-    mout = kdf.obs(R.run_driver("res", "\n".join(model_in + check_in) + "\n"))
+    mout = kdf.obs(R.run_driver("res", "\n".join(model_in + check_in + der_in) + "\n"))
+    der_model = [l for l in mout if l.startswith("D ")]
+    der_mism = kdf.diff_streams(der_impl, der_model)
+    if der_mism is not None and der_mism < len(der_where) and not any(v[1] is der_where[der_mism][0] for v in violations):
+        S_, i_ = der_where[der_mism]
+        violations.append(("'%s' with the raw blob as this history left it (model line '%s'): implementation status and pins left '%s', model '%s'" % (
+            S_.ops[i_]["line"], der_in[der_mism], der_impl[der_mism], der_model[der_mism] if der_mism < len(der_model) else None), S_, i_, None))
     model_t = [l for l in mout if l.startswith("T ")]
     ledger = [l for l in mout if l.startswith("L ")]
     mism = kdf.diff_streams(impl_t, model_t)
